@@ -214,15 +214,17 @@ struct iauth_request *iauth_validate_request(const char routing[])
 {
     struct iauth_request *req;
     char *sep;
-    unsigned int serial;
+    unsigned long serial;
+    long long_id;
     int id;
 
-    /* Parse the routing tag. */
-    id = strtol(routing, &sep, 16);
-    if (sep[0] != '_')
+    /* Parse the routing tag; values that do not fit are not ours. */
+    long_id = strtol(routing, &sep, 16);
+    if (sep[0] != '_' || long_id < INT_MIN || long_id > INT_MAX)
         return NULL;
+    id = long_id;
     serial = strtoul(sep + 1, &sep, 16);
-    if (sep[0] != '\0')
+    if (sep[0] != '\0' || serial > UINT_MAX)
         return NULL;
 
     /* Look up the client and check that it is the correct one. */
